@@ -302,7 +302,7 @@ class Encoder(object):
                     else:
                         self.asserts.append('(= (* %s %s) (* %s %s %s))' % (v2, v2, v, v, prod))
         # constant rational exponent p/q with small q: v^q = base^p
-        if tm.isc(ex) and ex.p.denominator <= 8 and abs(ex.p.numerator) <= 16:
+        if tm.isc(ex) and ex.p.denominator <= 24 and abs(ex.p.numerator) <= 24:
             p, q = ex.p.numerator, ex.p.denominator
             lhs = '(* %s)' % ' '.join([v] * q) if q > 1 else v
             if p > 0:
